@@ -130,7 +130,7 @@ func (m *M) openShard() {
 	m.w = bufio.NewWriterSize(f, 1<<20)
 	m.inShard = 0
 	var sb strings.Builder
-	jsonVal(&sb, []kv{{"op", "Header"}, {"ne", len(m.E)}, {"ns", len(m.S)}, {"prop", m.prop}})
+	jsonVal(&sb, []kv{{"op", "Header"}, {"ne", len(m.E)}, {"ns", len(m.S)}, {"nf", 4}, {"prop", m.prop}})
 	m.w.WriteString(sb.String())
 	m.w.WriteByte('\n')
 }
